@@ -387,6 +387,7 @@ RULES = [
     ("R-C11-scratch", 3, "shared python parameter vector fully overwritten before use", rule_scratch),
     ("R-C11-globals", 3, "who-may-write module-level state", rule_globals),
     ("R-C11-reload", 4, "library handle typestate", rule_reload),
+    ("R-C11-cstate", 600, "generated kernels keep no state and leave the process state alone (all units)", _x3.make_cstate_rule("R-C11-cstate")),
     ("R-C11-views", 6, "caller arrays are selected by a copying mask before in-place edits", _x3.rule_c11_views),
 ]
 from . import folds as _folds
